@@ -177,6 +177,7 @@ func checkC08(c *Check) {
 	c.Ob("R1", "MsgCreateBid.ValidateBasic rejects a zero price", vb.Pos(), okZero, "")
 	c.Ob("R1", "MsgCreateBid.ValidateBasic validates the order id", vb.Pos(), okOrder, "")
 	c.orderMaximumShape("R1")
+	c.providerUpdatePersists("R3")
 
 	// ---- R2 what is matched
 	for _, call := range callsIn(h, false) {
@@ -982,4 +983,28 @@ func (c *Check) orderMaximumShape(rule string) {
 	default:
 		c.Ob(rule, "order maximum: the count of a resource entry multiplies that entry's unit price", pf.Pos(), true, "")
 	}
+}
+
+// providerUpdatePersists: a provider update that reports success has written the given record: every nil-error return
+// of the provider keeper's Update passes the store write of that record. A path that answers "ok" without writing (a
+// no-op shortcut) leaves the old attributes in force while the provider and the tenants believe the new ones are.
+func (c *Check) providerUpdatePersists(rule string) {
+	l := c.L
+	fn := l.Func("x/provider/keeper", "Keeper", "Update")
+	c.Analysed(fnName(fn))
+	ok, n := true, 0
+	for _, r := range successReturns(fn) {
+		n++
+		if !mustPassFrom(fn, nil, r, func(in ssa.Instruction) bool {
+			call, isC := in.(ssa.CallInstruction)
+			if !isC || !isStoreSet(call) {
+				return false
+			}
+			o := marshalledObj(call)
+			return o != nil && strings.Contains(Sym(o), "provider")
+		}) {
+			ok = false
+		}
+	}
+	c.Ob(rule, "a provider update that reports success has stored the given record", fn.Pos(), ok && n > 0, "Update can return nil without writing the record it was given: the attributes bids are admitted against are not the ones the provider last declared")
 }
